@@ -38,6 +38,8 @@ type observation struct {
 	InitOpens []string   `json:"initial_read_order"`
 	Init      [][]string `json:"-"`
 	Steps     [][]string `json:"-"`
+	Flush     []string   `json:"-"` // lines delivered with the first Write event after start-up (cases with start-up activity)
+	FlushShow [][]string `json:"lines_with_first_event_after_startup,omitempty"`
 	InitShow  [][]string `json:"initial_lines"`
 	StepShow  [][]string `json:"tail_lines_per_operation"`
 	Err       string     `json:"error,omitempty"`
@@ -49,7 +51,7 @@ type driver struct {
 	events chan fsnotify.Event
 	done   chan error
 	exited bool
-	phase  int // 0 start-up, 1 between operations, 2 inside an operation
+	phase  int // 0 start-up, 1 between operations, 2 inside an operation, 3 first event after a start-up with activity
 	obs    *observation
 	stray  int
 }
@@ -65,6 +67,8 @@ func (h *driver) onLine(l string) {
 	case 2:
 		n := len(h.obs.Steps)
 		h.obs.Steps[n-1] = append(h.obs.Steps[n-1], l)
+	case 3:
+		h.obs.Flush = append(h.obs.Flush, l)
 	default:
 		h.stray++
 	}
@@ -79,8 +83,16 @@ func (h *driver) onOpen(p string) {
 
 // pump serves the reader until the event has been taken (ev != nil) or until is closed.
 func (h *driver) pump(ev *fsnotify.Event, until <-chan struct{}) error {
+	_, err := h.pumpOpt(ev, until, true, false, hangAfter)
+	return err
+}
+
+// pumpOpt: lines are received only when drain is set (otherwise whoever delivers a line stays blocked in its send:
+// the consumer of Lines() is "not draining"); with one set it returns after one line / Open has been served.
+// timedOut: nothing ended the wait within limit (an error only when the limit is the hang detector's).
+func (h *driver) pumpOpt(ev *fsnotify.Event, until <-chan struct{}, drain, one bool, limit time.Duration) (timedOut bool, err error) {
 	if h.exited {
-		return errors.New("exited")
+		return false, errors.New("exited")
 	}
 	var sendCh chan<- fsnotify.Event
 	var e fsnotify.Event
@@ -88,23 +100,36 @@ func (h *driver) pump(ev *fsnotify.Event, until <-chan struct{}) error {
 		sendCh = h.events
 		e = *ev
 	}
-	timer := time.NewTimer(hangAfter)
+	var lines <-chan string
+	if drain {
+		lines = h.rd.Lines()
+	}
+	timer := time.NewTimer(limit)
 	defer timer.Stop()
 	for {
 		select {
 		case sendCh <- e:
-			return nil
+			return false, nil
 		case <-until:
-			return nil
-		case l := <-h.rd.Lines():
+			return false, nil
+		case l := <-lines:
 			h.onLine(l)
+			if one {
+				return false, nil
+			}
 		case p := <-h.fs.opens:
 			h.onOpen(p)
+			if one {
+				return false, nil
+			}
 		case err := <-h.done:
 			h.exited = true
-			return fmt.Errorf("exited: the reader loop returned: %v", err)
+			return false, fmt.Errorf("exited: the reader loop returned: %v", err)
 		case <-timer.C:
-			return fmt.Errorf("hang: the reader neither took the next event nor delivered a line for %s", hangAfter)
+			if limit < hangAfter {
+				return true, nil
+			}
+			return true, fmt.Errorf("hang: the reader neither took the next event nor delivered a line for %s", hangAfter)
 		}
 	}
 }
@@ -173,6 +198,100 @@ func (h *driver) apply(o opDesc) error {
 	return fmt.Errorf("harness: unknown operation %q", o.Op)
 }
 
+// noDrainFor: how long an event injected during start-up is offered while nobody receives from Lines().  The
+// unchanged reader takes it at once (its loop is in its select while a goroutine of its own delivers the lines);
+// a reader that cannot take events while a line is pending is not wrong for that: after this time the lines are
+// received again.
+const noDrainFor = 300 * time.Millisecond
+
+// startup serves the reader until InitFilesDone is closed and injects the case's start-up activity at its
+// positions: once the Open of initial file number AtFile (in reading order) has been announced and After of its
+// lines have been received — the goroutine delivering that file is then blocked in the send of its next line (or
+// about to open / finish).  An injection = the change (an append to audit.log, or none) + its event, offered
+// WITHOUT receiving lines, + the barrier event (lines received again), so that each event is processed before the
+// next change.  Activity whose position is never reached is injected at the end of start-up.  With activity, one
+// more Write event for audit.log follows start-up (phase 3): what was appended meanwhile and not read by the
+// initial read is due then at the latest.
+func (h *driver) startup(c caseDesc) error {
+	next := 0
+	due := func(s startOp) bool {
+		if s.AtFile < 0 {
+			return true
+		}
+		file := len(h.obs.InitOpens) - 1
+		if file < 0 {
+			return false
+		}
+		return file > s.AtFile || (file == s.AtFile && len(h.obs.Init[file]) >= s.After)
+	}
+	over := false
+	for !over {
+		for next < len(c.Startup) && due(c.Startup[next]) {
+			if err := h.inject(c.Startup[next]); err != nil {
+				return err
+			}
+			next++
+		}
+		select {
+		case <-h.rd.InitFilesDone():
+			over = true
+		default:
+			if _, err := h.pumpOpt(nil, h.rd.InitFilesDone(), true, true, hangAfter); err != nil {
+				return err
+			}
+		}
+	}
+	for ; next < len(c.Startup); next++ {
+		if err := h.inject(c.Startup[next]); err != nil {
+			return err
+		}
+	}
+	if len(c.Startup) > 0 {
+		h.fs.mu.Lock()
+		_, live := h.fs.files[mainLog]
+		h.fs.mu.Unlock()
+		if live {
+			h.phase = 3
+			if err := h.event(fsnotify.Write, mainLog); err != nil {
+				return err
+			}
+		}
+	}
+	return nil
+}
+
+func (h *driver) inject(s startOp) error {
+	ev := fsnotify.Event{Name: mainLog, Op: fsnotify.Write}
+	switch s.Op {
+	case "append":
+		h.fs.mu.Lock()
+		ino, ok := h.fs.files[mainLog]
+		if ok {
+			ino.data = append(ino.data, s.Data.bytes()...)
+		}
+		h.fs.mu.Unlock()
+		if !ok {
+			return errors.New("harness: start-up append without audit.log")
+		}
+	case "chmod":
+		ev.Op = fsnotify.Chmod
+	case "other-name":
+		ev = fsnotify.Event{Name: filepath.Join(dirPath, s.Name), Op: fsnotify.Write}
+	default:
+		return fmt.Errorf("harness: unknown start-up operation %q", s.Op)
+	}
+	timedOut, err := h.pumpOpt(&ev, nil, false, false, noDrainFor)
+	if err != nil {
+		return err
+	}
+	if timedOut {
+		if err := h.pump(&ev, nil); err != nil {
+			return err
+		}
+	}
+	return h.pump(&fsnotify.Event{Name: filepath.Join(dirPath, ".verif-barrier"), Op: fsnotify.Chmod}, nil)
+}
+
 func showLines(g [][]string) [][]string {
 	out := make([][]string, len(g))
 	for i, ls := range g {
@@ -212,7 +331,7 @@ func runOne(c caseDesc) observation {
 	h := &driver{rd: rd, fs: mfs, events: events, done: make(chan error, 1), obs: &obs}
 	go func() { h.done <- rd.Wait() }()
 
-	err := h.pump(nil, rd.InitFilesDone())
+	err := h.startup(c)
 	h.phase = 1
 	if err == nil {
 		if _, ok := mfs.files[mainLog]; !ok {
@@ -255,6 +374,9 @@ func runOne(c caseDesc) observation {
 			}
 		}
 	}
+	if len(c.Startup) > 0 {
+		obs.FlushShow = showLines([][]string{obs.Flush})
+	}
 	obs.InitShow = showLines(obs.Init)
 	obs.StepShow = showLines(obs.Steps)
 	return obs
@@ -287,7 +409,15 @@ func coqGroup(ls []string) string {
 
 func coqCase(c caseDesc, o observation) (string, string) {
 	var dir, ops, sorted, init, steps []string
-	for _, e := range c.Dir {
+	// activity during start-up (the model has none): what was appended then counts as content of audit.log at start,
+	// the lines delivered with the first Write event after start-up count as read at start, and that event is an
+	// append of nothing that delivers nothing
+	flushed := len(c.Startup) > 0 && len(o.Init) > 0 && indexOfName(c.Dir, "audit.log") >= 0
+	if flushed {
+		ops = append(ops, "A "+coqSegs(nil))
+		steps = append(steps, coqGroup(nil))
+	}
+	for _, e := range effectiveDir(c) {
 		data := e.Data.bytes()
 		if e.Dir {
 			data = nil
@@ -314,7 +444,28 @@ func coqCase(c caseDesc, o observation) (string, string) {
 		}
 		sorted = append(sorted, coqName(s, false))
 	}
-	for _, g := range o.Init {
+	groups := o.Init
+	if len(c.Startup) > 0 {
+		// an event processed at the very end of start-up opens audit.log once more: one group per file, a file's
+		// later reads (and the lines of the first Write event after start-up) added to its group
+		var order []string
+		byName := map[string][]string{}
+		for i, g := range o.Init {
+			name := o.InitOpens[i]
+			if _, seen := byName[name]; !seen {
+				order = append(order, name)
+			}
+			byName[name] = append(append([]string{}, byName[name]...), g...)
+		}
+		if flushed {
+			byName["audit.log"] = append(append([]string{}, byName["audit.log"]...), o.Flush...)
+		}
+		groups = nil
+		for _, name := range order {
+			groups = append(groups, byName[name])
+		}
+	}
+	for _, g := range groups {
 		init = append(init, coqGroup(g))
 	}
 	for _, g := range o.Steps {
@@ -329,7 +480,9 @@ func coqCase(c caseDesc, o observation) (string, string) {
 const ruleText = "directory listings with 0-25 rotated files (contiguous 1..k below and above 10, sparse numbers up to 999, listed in random order, " +
 	"stray names and directories that look like rotated logs, audit.log present or absent), file contents with complete, empty and unterminated lines; " +
 	"0-12 operations on audit.log: appends of whole lines, partial lines, several lines, newline only, nothing, lines around and beyond 4096 and 8192 bytes, " +
-	"each possibly cut into 2-3 appends at random places; rotate (rename+create), remove+create, truncate, chmod; reads of the in-memory file return " +
+	"each possibly cut into 2-3 appends at random places; rotate (rename+create), remove+create, truncate, chmod; in two cases of five activity DURING start-up " +
+	"(appends to audit.log with their Write events, Write events without new bytes, Chmod events, events for other names; while an older file is read, between files, " +
+	"right when the read of audit.log starts, after some or all of its lines; the event is offered while nobody receives from Lines(); then one Write event after start-up); reads of the in-memory file return " +
 	"at most 1, 7, 1000, 4096 or all bytes; every case runs on the real sortLogNamesOldToNew / LogDirReader loop / rotatingFile.read / readLines with each " +
 	"event processed before the next change; the oracle is computed from the case alone; non-trivial = at least two audit logs at start or an operation that completes a line; distinct by case content"
 
@@ -416,9 +569,18 @@ func main() {
 		Header: "From Coq Require Import Ascii String List Bool Arith NArith.\nImport ListNotations.\nFrom AM Require Import Lib.Bytes Model.DirReader Model.DirReaderCheck.\n",
 		Footer: func(int) string { return "Definition M := Eval vm_compute in mismatches cases.\nPrint M.\n" }}
 	perKey := map[string]int{}
+	hangs := 0
 	for i := 0; i < *n; i++ {
+		if hangs >= 2 {
+			// each hang costs the detector's time twice (event, then shutdown): two cases say enough
+			sum.Notes = append(sum.Notes, fmt.Sprintf("exploration stopped after case %d: the reader hung in %d cases", i, hangs))
+			break
+		}
 		c := genCase(r, i, sum)
 		o := runOne(c)
+		if strings.HasPrefix(o.Err, "hang") {
+			hangs++
+		}
 		nontrivial := describe(c, sum)
 		raw, _ := json.Marshal(c)
 		sum.Count(string(raw), nontrivial)
@@ -473,13 +635,21 @@ func doReplay(path string) int {
 		return 2
 	}
 	c := *rp.Replay.Case
-	o := runOne(c)
-	fs := judge(c, o)
-	for _, f := range fs {
-		fmt.Printf("REPRODUCED %s: %s\n", f.key, f.what)
+	// activity during start-up meets goroutines of the reader: the interleaving is forced as far as the seams allow,
+	// a few repetitions cover the rest
+	reps := 1
+	if len(c.Startup) > 0 {
+		reps = 5
 	}
-	if len(fs) > 0 {
-		return 1
+	for k := 0; k < reps; k++ {
+		o := runOne(c)
+		fs := judge(c, o)
+		for _, f := range fs {
+			fmt.Printf("REPRODUCED %s: %s\n", f.key, f.what)
+		}
+		if len(fs) > 0 {
+			return 1
+		}
 	}
 	fmt.Println("not reproduced")
 	return 0
